@@ -47,7 +47,9 @@ def recip_case(draw):
     u = draw(G.expr_of_dim(dim))
     v = draw(G.expr_of_dim(G.neg(dim)))
     x = draw(G.magnitudes().filter(lambda m: all(e != 0 for e in (m if isinstance(m, list) else [m]))))
-    return {"kind": "recip", "u": u, "v": v, "x": x, "k": draw(st.sampled_from([None, 2.0, 10.0, 0.25]))}
+    # an uncertainty attached to the quantity does not move the converted value
+    return {"kind": "recip", "u": u, "v": v, "x": x, "k": draw(st.sampled_from([None, 2.0, 10.0, 0.25])),
+            "err": draw(st.sampled_from([None, None, 0.25, 0.01]))}
 
 
 @st.composite
@@ -141,8 +143,23 @@ def to_none_case(draw):
     return {"kind": "to_none", "u": u, "x": draw(G.magnitudes(lo_exp=-30, hi_exp=30)), "ok": False}
 
 
+@st.composite
+def unit_object_case(draw):
+    """attributes of one Unit() object are fresh quantities every time: converting one in place does not change what the
+    attribute delivers next"""
+    dim = draw(st.sampled_from(G.NONZERO_DIMS))
+    plain = [a for a in G.GROUPS_PLAIN[dim] if a[0] == "" and a[1].isidentifier()]
+    if not plain:
+        dim = G.NONZERO_DIMS[0]
+        plain = [a for a in G.GROUPS_PLAIN[dim] if a[0] == "" and a[1].isidentifier()] or [("", "m")]
+    sym = draw(st.sampled_from(plain))[1]
+    return {"kind": "unit_object", "sym": sym, "other": draw(G.expr_of_dim(R.atom_dim(sym))),
+            "src": draw(G.expr_of_dim(R.atom_dim(sym))), "x": draw(G.magnitudes(lo_exp=-30, hi_exp=30))}
+
+
 def strategies(tier):
     return {
+        "unit_object": (unit_object_case(), 200, 4000),
         "typed_input": (typed_case(), 300, 6000),
         "to_none": (to_none_case(), 200, 4000),
         "rankine": (rankine_case(), 200, 4000),
@@ -260,6 +277,15 @@ def check_recip(case, v):
     if not (_range_ok(xa, fu) and _range_ok(xa, fu * fv)):
         return v.discard("float-range")
     exp = 1.0 / (xa * fu) / fv
+    if case.get("err"):
+        try:
+            ge = Quantity(case["x"], tu, rele=case["err"] * 100).to(tv).value()
+        except Exception as e:
+            return v.fail("recip-raised", f"Quantity({case['x']!r},{tu!r},rele={case['err'] * 100}).to({tv!r}) raised {e!r}")
+        if not _close(ge, exp):
+            return v.fail("recip-value", f"Quantity({case['x']!r},{tu!r},rele={case['err'] * 100}).to({tv!r}) = {ge!r}, "
+                                         f"expected {exp!r} (the uncertainty moved the value)")
+        v.label("recip_with_uncertainty")
     try:
         got = Quantity(case["x"], tu).value(tv)
     except Exception as e:
@@ -358,6 +384,30 @@ def check_bare_refuse(case, v):
     v.label("bare_refuse")
 
 
+def check_unit_object(case, v):
+    from scinumtools.units import Quantity, Unit
+    sym, t_other, t_src = case["sym"], R.render(case["other"]), R.render(case["src"])
+    fs = _factors(G.atom("", sym), case["other"], case["src"])
+    if fs is None:
+        return v.discard("float-range")
+    f_sym, _f_other, f_src = fs
+    xa = _arr(case["x"])
+    if not _range_ok(xa, f_src / f_sym):
+        return v.discard("float-range")
+    U = Unit()
+    try:
+        first = getattr(U, sym)
+        first.to(t_other)                       # explicit in-place conversion of the object handed out
+        r = Quantity(case["x"], t_src).to(getattr(U, sym))
+    except Exception as e:
+        return v.fail("convert-raised", f"U = Unit(); U.{sym}.to({t_other!r}); Quantity({case['x']!r},{t_src!r}).to(U.{sym}) raised {e!r}")
+    if not _close(r.value(), xa * f_src / f_sym) or r.units() != sym:
+        return v.fail("value", f"U = Unit(); U.{sym}.to({t_other!r}); Quantity({case['x']!r},{t_src!r}).to(U.{sym}) = "
+                               f"{r.value()!r} {r.units()}, expected {xa * f_src / f_sym!r} {sym}")
+    v.nt(True)
+    v.label("unit_object")
+
+
 def check_typed(case, v):
     from decimal import Decimal
     from scinumtools.units import Quantity
@@ -432,7 +482,7 @@ def check_to_none(case, v):
 def check(case):
     v = Verdict()
     try:
-        {"bare_refuse": check_bare_refuse, "convert": check_convert, "recip": check_recip, "rad": check_rad, "refuse": check_refuse, "typed": check_typed, "to_none": check_to_none}[case["kind"]](case, v)
+        {"bare_refuse": check_bare_refuse, "convert": check_convert, "recip": check_recip, "rad": check_rad, "refuse": check_refuse, "typed": check_typed, "to_none": check_to_none, "unit_object": check_unit_object}[case["kind"]](case, v)
     finally:
         if not R.tables_pristine():
             R.restore_tables()
